@@ -553,6 +553,10 @@ func (v *visitor) BuiltinNode(node *ast.BuiltinNode) reflect.Type {
 
 func (v *visitor) ClosureNode(node *ast.ClosureNode) reflect.Type {
 	t := v.visit(node.Node)
+	if t == nil {
+		// A closure may yield nil; reflect.FuncOf panics on a nil type.
+		t = interfaceType
+	}
 	return reflect.FuncOf([]reflect.Type{interfaceType}, []reflect.Type{t}, false)
 }
 
